@@ -281,3 +281,55 @@ def check_lp_loops(ck, P, rid):
             ck.violated(rid, inst, l.where, "%s is not called exactly once per iteration on &lps[%s]" % (callee, iv[0].name), cfg)
         else:
             ck.holds(rid, inst, l.where, "for(%s = lid_thread_first; %s < lid_thread_end; ++%s) %s(&lps[%s]) once per iteration" % (iv[0].name, iv[0].name, iv[0].name, callee, iv[0].name), cfg)
+
+
+def check_routing_range(ck, P, rid):
+    """The routing macro used by a partition_start call maps [start, start + total) onto [0, parts): it has the form
+    ((x - start) * parts / total) with the very (parts, start, total) that call passes (start 0 may be omitted)."""
+    cfg = P.config
+    want = {"lid_to_nid": ("lp_global_init", "n_nodes", "0", "global_config.lps"), "lid_to_rid": ("lp_init", "global_config.n_threads", "lid_node_first", "n_lps_node")}
+    for macro, (fname, parts, start, total) in want.items():
+        f = P.fn(fname)
+        # arguments the partition_start expansion was given (macro call text is the resolved invocation)
+        pcs = [p_ for p_ in partition_calls(f) if p_["fn"] == macro]
+        inst = "range:%s" % macro
+        if not pcs:
+            ck.inconclusive(rid, inst, f.where, "no partition_start over %s" % macro, cfg)
+            continue
+        txt = pcs[0]["node"].d.get("mcall") or ""
+        inner = txt[txt.find("(") + 1: txt.rfind(")")]
+        args, depth, cur = [], 0, ""
+        for ch in inner:
+            if ch == "," and depth == 0:
+                args.append(cur.strip()); cur = ""
+            else:
+                depth += ch in "([" ; depth -= ch in ")]"
+                cur += ch
+        args.append(cur.strip())
+        if len(args) != 5:
+            ck.inconclusive(rid, inst, pcs[0]["node"].where, "partition_start arguments not recognised", cfg)
+            continue
+        p_cnt, p_start, p_tot = args[1], args[3], args[4]
+        # canonical body of the routing macro at one of its expansions
+        tops = []
+        for g in P.all_functions():
+            tops += X.expansions(g.root, macro)
+        top = X.strip(tops[0], casts=True)
+        shape = None
+        if top.k == "BinaryOperator" and top.op == "/":
+            num, den = X.strip(top.children[0]), X.strip(top.children[1])
+            if num.k == "BinaryOperator" and num.op == "*":
+                a, b = X.strip(num.children[0]), X.strip(num.children[1])
+                base = "0"
+                arg_side = a
+                if a.k == "BinaryOperator" and a.op == "-":
+                    base = X.show(a.children[1])
+                shape = (X.show(b), base, X.show(den))
+        if shape is None:
+            ck.inconclusive(rid, inst, tops[0].where, "routing macro is not of the form ((x - start) * parts / total): %s" % X.show(tops[0])[:80], cfg)
+            continue
+        if shape == (p_cnt, p_start, p_tot):
+            ck.holds(rid, inst, tops[0].where, "%s(x) = (x - %s) * %s / %s with the (parts, start, total) of its partition_start call: values 0..parts-1 over the range" % (macro, shape[1], shape[0], shape[2]), cfg)
+        else:
+            ck.violated(rid, inst, tops[0].where, "%s computes (x - %s) * %s / %s but its ownership bounds are searched with parts=%s start=%s total=%s: some identifiers of the range are routed to a partition that does not exist (no owner) or two ranges overlap" % (
+                macro, shape[1], shape[0], shape[2], p_cnt, p_start, p_tot), cfg)
